@@ -13,6 +13,7 @@ import (
 	zzreflect "reflect"
 	zzruntime "runtime"
 	zzstrings "strings"
+	zzunsafe "unsafe"
 	zztime "time"
 )
 
@@ -183,6 +184,17 @@ func zzTimers(n int)               {}
 func zzUnwindIn(fn string, n int, isBug bool) {}
 func zzClockAdvance(d int64)       { }
 func zzSameObject(a, b interface{}) bool { return a == b }
+
+// zzSetHidden / zzGetHidden: field idx (exported or not) of the struct v points to. Used to
+// label opaque library values (an undecoded toml.Primitive) so that a model can tell them apart.
+func zzSetHidden(v interface{}, idx int, val interface{}) {
+	f := zzreflect.ValueOf(v).Elem().Field(idx)
+	zzreflect.NewAt(f.Type(), zzunsafe.Pointer(f.UnsafeAddr())).Elem().Set(zzreflect.ValueOf(val))
+}
+func zzGetHidden(v interface{}, idx int) interface{} {
+	f := zzreflect.ValueOf(v).Elem().Field(idx)
+	return zzreflect.NewAt(f.Type(), zzunsafe.Pointer(f.UnsafeAddr())).Elem().Interface()
+}
 
 // zzAssignByTag: v points to a struct; every field whose struct tag TAG names a key of kv
 // gets that value (absent keys leave the field untouched - the contract of a table decoder).
